@@ -353,7 +353,7 @@ var words = []string{"select", "set", "sleep", "substr", "substring", "union", "
 	"cookie", "admin", "Upload", "foo", "bar", "ab", "abc", "abd", "k", "s", "ks", "sk", "kelvin", "ss", "x", "-->",
 	"<!--", "../", "%00", "0x", "or", "and", "SELECT", "Kiss", "desk", "10", "00", "100"}
 
-var exotic = []string{"\u00e9", "\u00df", "\u017f", "\u212a", "\u03c3", "\u03c2", "\u03a3", "\u0130", "\u0131", "\u20ac", "\u65e5\u672c", `\x{FFFD}`, "\u00b5", "\u00c9",
+var exotic = []string{"\u00e9", "\u00df", "\u017f", "\u212a", "\u03c3", "\u03c2", "\u03a3", "\u0130", "\u0131", "\u20ac", "\u65e5\u672c", `\x{FFFD}`, "\ufffd", "a\ufffd", "\u00b5", "\u00c9",
 	"\u01c5", "\u01c6", "\u01c4", "\u1e9e", "\ufb01", "\u00b5x", "k\u212a", "stra\u00dfe", "\U0001F600", "\x7f", "\u0080"}
 
 type pgen struct {
@@ -394,7 +394,7 @@ func (g *pgen) lit() string {
 }
 
 var classes = []string{`[a-c]`, `[^"]`, `\d`, `\s`, `\w`, `\W`, `.`, `[[:alpha:]]`, `[k-s]`, `[\x{100}-\x{17F}]`, `[^\n]`, `[Kk]`,
-	`[sS]`, `[a-zA-Z0-9_]`, `[^a-z]`, `\S`, `\D`, `[\x00-\x{10FFFF}]`, `[\x{e9}-\x{fc}]`, `[\x{FFFD}]`, `[0-9a-f]`}
+	`[sS]`, `[a-zA-Z0-9_]`, `[^a-z]`, `\S`, `\D`, `[\x00-\x{10FFFF}]`, `[\x{e9}-\x{fc}]`, `[\x{FFFD}]`, "[\ufffd]", `[0-9a-f]`}
 
 func (g *pgen) atom(depth int) string {
 	x := g.r.Intn(20)
@@ -494,7 +494,7 @@ func (g *pgen) longLit(n int) string {
 func (g *pgen) special() string {
 	L := func() string { return g.lit() }
 	W := func() string { return regexp.QuoteMeta(g.pick(words)) }
-	switch g.r.Intn(22) {
+	switch g.r.Intn(23) {
 	case 0:
 		return `\A` + L() + `.*` + L()
 	case 1:
@@ -538,6 +538,11 @@ func (g *pgen) special() string {
 		return `\A(?:` + L() + `|` + L() + `)` + `.*\z`
 	case 20:
 		return `(?i:` + L() + `)` + L() + `|` + L()
+	case 21:
+		// a short literal followed by a capture group that starts with a literal: trie reconstruction
+		// yields a single anyRequired needle (strings.Contains / containsFoldASCII path)
+		w1, w2 := g.pick(words), g.pick(words)
+		return g.pick([]string{"", "(?i)", "(?i)"}) + regexp.QuoteMeta(w1[:1]) + `(` + regexp.QuoteMeta(w2[:1+g.r.Intn(len(w2))]) + g.pick(classes) + g.pick([]string{"", "*", "+"}) + `)`
 	default:
 		return `^(?i)` + L() + `$`
 	}
@@ -1103,12 +1108,12 @@ func Run(cfg vh.Config) (*vh.Result, error) {
 		}
 		nIn := cfg.Pick(12, 24)
 		g := &pgen{r: rn.rng}
-		for i := 0; i < cfg.Pick(420, 4000); i++ {
+		for i := 0; i < cfg.Pick(600, 9000); i++ {
 			p, kind := g.pattern(cfg.Thorough())
 			rn.process(p, nil, "grammar", kind, nIn, true)
 		}
 		// the on/off differential alone (no Coq terms) on many more patterns
-		for i := 0; i < cfg.Pick(1500, 20000); i++ {
+		for i := 0; i < cfg.Pick(1500, 30000); i++ {
 			p, kind := g.pattern(cfg.Thorough())
 			rn.process(p, nil, "grammar", kind, cfg.Pick(12, 40), false)
 		}
@@ -1116,8 +1121,8 @@ func Run(cfg vh.Config) (*vh.Result, error) {
 		rn.dist["crs_patterns_available"] = len(crs)
 		if !cfg.Thorough() {
 			rn.rng.Shuffle(len(crs), func(i, j int) { crs[i], crs[j] = crs[j], crs[i] })
-			if len(crs) > 60 {
-				crs = crs[:60]
+			if len(crs) > 80 {
+				crs = crs[:80]
 			}
 		}
 		for _, p := range crs {
